@@ -32,6 +32,9 @@ type Section struct {
 	Bound  int    // deviation bound, -1 = none
 	Serial bool   // run with a single worker (global entropy tape etc.)
 	Tiers  string // "" = both, "quick" or "thorough" = only that tier
+	// Seam: the section needs an export shim into UNEXPORTED tink names. When the shims could not be built against
+	// the tree (tink internals refactored; check.sh then builds the stubs and sets VERIF_NOSEAMS) it is skipped.
+	Seam bool
 }
 
 type point struct {
@@ -475,6 +478,10 @@ func loadKnown(prop string) map[string]string {
 
 // Main runs a check: parses flags, explores every section, writes evidence,
 // prints KNOWN-FINDING / VIOLATION lines and exits 0 / 1.
+// Seams reports whether the export shims into unexported tink names were built (see Section.Seam). Bodies that use
+// a seam inside an otherwise API-level section guard that part with it.
+func Seams() bool { return os.Getenv("VERIF_NOSEAMS") == "" }
+
 func Main(prop, level, rule string, sections []Section) {
 	tier := flag.String("tier", "quick", "quick|thorough")
 	replay := flag.String("replay", "", "replay file")
@@ -495,6 +502,9 @@ func Main(prop, level, rule string, sections []Section) {
 		fmt.Sscan(s, &r.Seed)
 	}
 	theRun = r
+	if !Seams() {
+		r.Assumptions = append(r.Assumptions, "internal seams unavailable on this tree (tink internals refactored): seam-level sections skipped, API-level sections ran")
+	}
 	dl := *maxmin
 	if dl == 0 {
 		if r.Tier == "quick" {
@@ -516,6 +526,10 @@ func Main(prop, level, rule string, sections []Section) {
 			continue
 		}
 		if ss.sec.Tiers != "" && ss.sec.Tiers != r.Tier {
+			continue
+		}
+		if ss.sec.Seam && !Seams() {
+			fmt.Printf("[%s] section %-28s SKIPPED: internal seam unavailable on this tree\n", prop, ss.sec.Name)
 			continue
 		}
 		t0 := time.Now()
